@@ -226,6 +226,9 @@ func classify(labels map[string]bool, touched map[string]bool, before *model.DB,
 	}
 	if !exp.JOK {
 		labels["negative-answer"] = true
+		if (name == "rename" || name == "renamenx") && strings.Contains(exp.JErr, "key has") {
+			labels["nt:rename-refused-by-hook"] = true
+		}
 	}
 }
 
@@ -241,9 +244,37 @@ func nontrivial(labels map[string]bool) bool {
 	return false
 }
 
+// hookCmd draws a hook/channel command on one of the case's keys: RENAME and
+// RENAMENX must be refused (and change nothing) while a hook or channel
+// watches either key.
+func hookCmd(t *rapid.T, ns gen.Names) []string {
+	name := rapid.SampledFrom([]string{"h1", "h2", "c1", "c2"}).Draw(t, "hookname")
+	isChan := name[0] == 'c'
+	if rapid.IntRange(0, 2).Draw(t, "hookdel") == 0 {
+		if isChan {
+			return []string{"DELCHAN", name}
+		}
+		return []string{"DELHOOK", name}
+	}
+	key := rapid.SampledFrom(ns.Keys).Draw(t, "hookkey")
+	fence := [][]string{
+		{"NEARBY", key, "FENCE", "DETECT", "enter", "POINT", "80", "170", "10"},
+		{"WITHIN", key, "FENCE", "DETECT", "enter", "BOUNDS", "80", "170", "81", "171"},
+	}[rapid.IntRange(0, 1).Draw(t, "hookfence")]
+	if isChan {
+		return append([]string{"SETCHAN", name}, fence...)
+	}
+	return append([]string{"SETHOOK", name, "http://127.0.0.1:9/" + name}, fence...)
+}
+
 func drawProgram(rt *rapid.T, maxSteps int) program {
 	ns := gen.DrawNames(rt)
-	cmdGen := rapid.Custom(func(t *rapid.T) []string { return gen.KeyspaceCmd(t, ns) })
+	cmdGen := rapid.Custom(func(t *rapid.T) []string {
+		if rapid.IntRange(0, 24).Draw(t, "hook?") == 0 {
+			return hookCmd(t, ns)
+		}
+		return gen.KeyspaceCmd(t, ns)
+	})
 	return program{
 		Cmds:      rapid.SliceOfN(cmdGen, 6, maxSteps).Draw(rt, "cmds"),
 		JSONPhase: rapid.IntRange(0, 1).Draw(rt, "jsonphase"),
